@@ -3,6 +3,10 @@ import threading
 from typing import Any, Dict, List, Optional
 
 
+REPR_HOOK = None  # type: Any  # set by the fault-injection check: called on every repr() of a Tok
+DRIVE_HOOK = None  # type: Any  # set by the fault-injection check: replaces the trampoline
+
+
 class Tok:
     """A unique argument object; identity is what the monitors compare."""
 
@@ -13,6 +17,8 @@ class Tok:
         self.items = []  # type: List[Any]
 
     def __repr__(self) -> str:
+        if REPR_HOOK is not None:
+            REPR_HOOK(self)
         return "Tok({!r})".format(self.n)
 
 
@@ -280,6 +286,8 @@ def make_result(kind: str, got: Dict[str, Any]) -> Any:
 
 def drive(coro: Any) -> Any:
     """Deterministic trampoline: run a coroutine to completion, resuming at every Tick."""
+    if DRIVE_HOOK is not None:
+        return DRIVE_HOOK(coro)
     try:
         while True:
             coro.send(None)
